@@ -53,7 +53,7 @@ _mk('UserCallable', 'object')        # abstract callable (user method, middlewar
 for _n in ('UserMethod', 'UserMiddleware', 'UserErrorHandler', 'UserTransport', 'UserJitter', 'UserCallback',
            'UserExcludeFn', 'UserIdGen', 'UserLoader', 'UserDumper', 'UserValidator'):
     _mk(_n, 'UserCallable')
-for _n in ('UserTracer', 'UserContext', 'UserView'):
+for _n in ('UserTracer', 'UserContext', 'UserView', 'UserIdIter'):
     _mk(_n, 'UserObject')
 
 
